@@ -152,7 +152,13 @@ def r1_fee_gate(ctx):
             r.violation("gate/exact-fee-rejected", "with tx.fee == min_fee forced the latch is unreachable: a transaction paying exactly the minimum is rejected", body.where(atoms[0][3]))
         else:
             r.ok("gate/exact-fee-accepted", "tx.fee == min_fee reaches the latch", body.where(atoms[0][3]))
-    # covenant_weight_from_bytes itself
+    weigher_def(ctx, r)
+
+
+def weigher_def(ctx, r):
+    """covenant_weight_from_bytes(b) = Covenant::from_bytes(b).map(weight).unwrap_or(0): the weight charged for a covenant given as bytes is the weight of the decoded program
+    as a whole (Loop prices its body by looking ahead, so weighing decoded pieces separately is a different number)"""
+    prog = ctx.prog
     cw = ctx.body("melvm::covenant_weight_from_bytes", r)
     rets = q.ret_assignments(cw)
     e = rets[0][2] if len(rets) == 1 else None
@@ -164,8 +170,17 @@ def r1_fee_gate(ctx):
             if cb is not None:
                 rr = q.ret_assignments(cb)
                 ok = len(rr) == 1 and q.is_call(rr[0][2], "Covenant::weight")
+    inloop = set()
+    for h, blocks, latches in cw.loops():
+        inloop |= set(blocks)
+    piecewise = [(bi, t) for bi, t in cw.calls() if t["fn"] and bi in inloop and
+                 mir.norm_name(t["fn"]["path"]).split("::")[-1] in ("opcodes_weight", "opcodes_car_weight", "weight")]
     if ok:
         r.ok("weigher/def", "covenant_weight_from_bytes = from_bytes(b).map(weight).unwrap_or(0)", cw.where(rets[0][0]))
+    elif piecewise:
+        r.violation("weigher/def", "covenant_weight_from_bytes weighs the program piece by piece (%s inside a loop): a Loop prices its body by looking ahead at the following "
+                    "instructions, so the sum of the pieces is not the weight of the program — bytes and instructions give different weights" %
+                    mir.norm_name(piecewise[0][1]["fn"]["path"]).split("::")[-1], cw.where(piecewise[0][0]))
     elif e is not None and not q.has_unknown(e):
         r.violation("weigher/def", "covenant_weight_from_bytes returns %s, not from_bytes(b).map(weight).unwrap_or(0)" % show(e), "%s:%s" % (cw.file, cw.line))
     else:
